@@ -77,7 +77,10 @@ def segment_within_buffer(
     ):
         return False
 
-    assert isinstance(cropped_mls, (MultiLineString, LineString))
+    if not isinstance(cropped_mls, (MultiLineString, LineString)):
+        # The buffer only touches the other traces in point(s) i.e. there is
+        # no segment within the buffer.
+        return False
 
     all_segments: List[Tuple[Tuple[float, float], Tuple[float, float]]] = []
     ls: LineString
